@@ -62,6 +62,11 @@ type TargetSpec struct {
 	Open      []bool   `json:"open,omitempty"`
 	Send      []bool   `json:"send,omitempty"`
 	Streams   []Stream `json:"streams,omitempty"`
+	// DialBlock[k] / OpenBlock[k]: the k-th dial / stream open does not answer
+	// but BLOCKS until its context ends (dial timeout, Reconnect, Remove) and
+	// then fails with the context's error.
+	DialBlock []bool `json:"dial_block,omitempty"`
+	OpenBlock []bool `json:"open_block,omitempty"`
 	// Dialers[k] is the dialer name in the target's configuration for its k-th
 	// incarnation (last entry repeated; none = default dialer).  Only the
 	// real-connection-manager family knows dialer names: "" and "alt" exist,
@@ -84,6 +89,7 @@ type Gate struct {
 // overlap: once the target's gate has closed, Remove is issued, and while it
 // is in progress (observed waiting inside Manager.Remove) a SECOND goroutine
 // calls X (add | remove | reconnect) for the same name; then the gate opens.
+// At < 0: issued when the target is inside a blocking dial / stream open.
 type Op struct {
 	T  int    `json:"t"`
 	At int    `json:"at"`
@@ -95,6 +101,8 @@ type Op struct {
 type Case struct {
 	Family       string       `json:"family"`
 	MgrTimeoutMs int          `json:"mgr_timeout_ms"` // Config.ReceiveTimeout
+	// DialTimeoutMs: Config.Timeout, the manager's bound on one dial.
+	DialTimeoutMs int `json:"dial_timeout_ms,omitempty"`
 	// RealCM: the Manager runs on the real connection.Manager (scripted
 	// dialers "" and "alt"; targets share the address strings) instead of the
 	// injected one.
@@ -140,7 +148,9 @@ type tgt struct {
 	iStream   int
 	nUpd      int64
 
-	peer  string // name of the next target of the case ("" if alone)
+	pending     bool // inside a blocking dial / stream open
+	dialTimeout bool // Config.Timeout > 0: a blocking dial ends by itself
+	peer        string // name of the next target of the case ("" if alone)
 	incar int    // Add calls so far (selects the dialer name)
 
 	gateCount  int           // occurrences of the gated callback kind so far
@@ -174,6 +184,27 @@ func tape(tp []bool, i *int) bool {
 	}
 	*i++
 	return v
+}
+
+func at(tp []bool, i int) bool { return i < len(tp) && tp[i] }
+
+// block parks the calling manager goroutine until ctx ends; selfEnding says
+// whether that happens without outside help.
+func (t *tgt) block(ctx context.Context, selfEnding bool) {
+	t.mu.Lock()
+	t.pending = true
+	if !selfEnding {
+		t.blocked = true
+	}
+	t.cond.Broadcast()
+	t.mu.Unlock()
+	<-ctx.Done()
+	t.mu.Lock()
+	t.pending = false
+	if !selfEnding {
+		t.blocked = false
+	}
+	t.mu.Unlock()
 }
 
 // registry of live targets by name (names are unique across the whole run)
@@ -212,8 +243,14 @@ func (connMgr) Connection(ctx context.Context, addr, dialer string) (*grpc.Clien
 		return nil, func() {}, errors.New("unknown target")
 	}
 	t.mu.Lock()
+	blk := at(t.spec.DialBlock, t.iDial)
 	ok := tape(t.spec.Dial, &t.iDial)
 	t.mu.Unlock()
+	if blk {
+		t.block(ctx, t.dialTimeout)
+		t.ev("dial-", true)
+		return nil, func() {}, ctx.Err()
+	}
 	t.ev("dial"+pm(ok), true)
 	if !ok {
 		return nil, func() {}, errors.New("refused")
@@ -261,8 +298,16 @@ func (r *realCM) dial(ctx context.Context, addr string, _ ...grpc.DialOption) (*
 	ok := true
 	if t := lookup(nameOf(ctx)); t != nil {
 		t.mu.Lock()
+		blk := at(t.spec.DialBlock, t.iDial)
 		ok = tape(t.spec.Dial, &t.iDial)
 		t.mu.Unlock()
+		if blk {
+			// a dial that only ends with its context (grpc.WithBlock to an
+			// unreachable address): the manager's dial timeout / Remove /
+			// Reconnect must reach it
+			t.block(ctx, t.dialTimeout)
+			return nil, &dialErr{at: time.Now()}
+		}
 	} else {
 		atomic.AddInt64(&strays, 1)
 	}
@@ -356,6 +401,17 @@ func openStream(ctx context.Context, _ *grpc.ClientConn) (gpb.GNMI_SubscribeClie
 	if t == nil {
 		atomic.AddInt64(&strays, 1)
 		return nil, errors.New("unknown target")
+	}
+	t.mu.Lock()
+	oblk := at(t.spec.OpenBlock, t.iOpen)
+	t.mu.Unlock()
+	if oblk {
+		t.mu.Lock()
+		t.iOpen++
+		t.mu.Unlock()
+		t.block(ctx, false)
+		t.ev("open-", true)
+		return nil, ctx.Err()
 	}
 	t.mu.Lock()
 	ok := tape(t.spec.Open, &t.iOpen)
@@ -630,6 +686,7 @@ func runCase(c Case, window time.Duration) ([][]string, [][]int64) {
 		Credentials:       creds{},
 		ConnectionManager: cmgr,
 		ReceiveTimeout:    time.Duration(c.MgrTimeoutMs) * time.Millisecond,
+		Timeout:           time.Duration(c.DialTimeoutMs) * time.Millisecond,
 	})
 	if err != nil {
 		vh.Die("NewManager: %v", err)
@@ -641,6 +698,7 @@ func runCase(c Case, window time.Duration) ([][]string, [][]int64) {
 		t.cbDelay = time.Duration(c.CbDelayUs) * time.Microsecond
 		t.cond = sync.NewCond(&t.mu)
 		t.gateCh = make(chan struct{})
+		t.dialTimeout = c.DialTimeoutMs > 0
 		if len(c.Targets) > 1 {
 			t.peer = fmt.Sprintf("c%d-t%d", seq, (i+1)%len(c.Targets))
 		}
@@ -822,6 +880,9 @@ func control(m *manager.Manager, t *tgt, ops []Op) {
 			ok := t.waitFor(stallAfter, func() bool {
 				if o.K == "overlap" {
 					return t.gateClosed || t.blocked || t.exhausted
+				}
+				if o.At < 0 {
+					return t.pending || t.blocked || t.exhausted || t.gateClosed
 				}
 				return t.gor >= o.At || t.blocked || t.exhausted || t.gateClosed
 			})
@@ -1105,6 +1166,52 @@ func realCMCases() []Case {
 	return out
 }
 
+// blockingCases: environment calls that only end with their context.
+func blockingCases() []Case {
+	var out []Case
+	good := []Stream{{"us", "eof"}, {"u", "hang"}}
+	for _, real := range []bool{false, true} {
+		// the address is unreachable for two attempts (the dial blocks until the
+		// manager's dial timeout), then reachable: ConnectError / MonitorError
+		// twice, then a session
+		base := Case{Family: "blocking", RealCM: real, DialTimeoutMs: 120,
+			Targets: []TargetSpec{{Hops: 1, DialBlock: []bool{true, true}, Streams: good}}}
+		out = append(out, base)
+		for _, k := range []string{"remove", "reconnect", "readd"} {
+			c := base
+			c.Ops = []Op{{T: 0, At: -1, K: k}}
+			out = append(out, c)
+			c2 := base
+			c2.Ops = []Op{{T: 0, At: 3, K: k}} // during the second pending dial
+			out = append(out, c2)
+		}
+		// a second target on the same address joins the pending dial
+		out = append(out, Case{Family: "blocking", RealCM: real, DialTimeoutMs: 120,
+			Targets: []TargetSpec{
+				{Hops: 1, DialBlock: []bool{true, false, true}, Streams: good},
+				{Hops: 1, Dial: []bool{true, false, true}, Streams: []Stream{{"su", "eof"}, {"", "hang"}}}},
+			Ops: []Op{{T: 1, At: -1, K: "reconnect"}, {T: 0, At: -1, K: "remove"}}})
+		// two hops, the first one unreachable
+		out = append(out, Case{Family: "blocking", RealCM: real, DialTimeoutMs: 100,
+			Targets: []TargetSpec{{Hops: 2, DialBlock: []bool{true, false, true, false}, Streams: good}},
+			Ops:     []Op{{T: 0, At: 8, K: "reconnect"}}})
+		// a stream open that never answers: only Reconnect / Remove end it
+		for _, k := range []string{"remove", "reconnect", "readd"} {
+			out = append(out, Case{Family: "blocking", RealCM: real,
+				Targets: []TargetSpec{{Hops: 1, OpenBlock: []bool{true, false, true}, Streams: good}},
+				Ops:     []Op{{T: 0, At: -1, K: k}}})
+		}
+	}
+	// no dial timeout configured (injected connection manager only): the
+	// pending dial is ended by Reconnect / Remove alone
+	for _, k := range []string{"remove", "reconnect", "readd"} {
+		out = append(out, Case{Family: "blocking",
+			Targets: []TargetSpec{{Hops: 1, DialBlock: []bool{true, false, true}, Streams: good}},
+			Ops:     []Op{{T: 0, At: -1, K: k}}})
+	}
+	return out
+}
+
 // prefixCases: updates labelled with another name (managed, removed, unknown).
 func prefixCases() []Case {
 	var out []Case
@@ -1159,6 +1266,9 @@ func randCase(r *vh.Rand) Case {
 		c.CbDelayUs = 100 + 100*r.Intn(4)
 	}
 	c.RealCM = r.Chance(1, 6)
+	if r.Chance(1, 5) {
+		c.DialTimeoutMs = 60 + 20*r.Intn(4)
+	}
 	nt := 1 + r.Pick(5, 3, 2)
 	for i := 0; i < nt; i++ {
 		c.Targets = append(c.Targets, randSpec(r.Fork()))
@@ -1170,6 +1280,14 @@ func randCase(r *vh.Rand) Case {
 			at += r.Intn(14)
 			k := []string{"reconnect", "readd", "remove", "add"}[r.Pick(5, 3, 2, 2)]
 			c.Ops = append(c.Ops, Op{T: i, At: at, K: k})
+		}
+		if c.DialTimeoutMs > 0 {
+			// an address that is unreachable for a while: those dials block
+			// until the manager's dial timeout
+			n := len(c.Targets[i].Dial)
+			for j := 0; j < n && j < 6; j++ {
+				c.Targets[i].DialBlock = append(c.Targets[i].DialBlock, r.Chance(1, 5))
+			}
 		}
 		if c.RealCM {
 			switch r.Pick(3, 2, 2) {
@@ -1375,7 +1493,7 @@ func main() {
 	manager.RetryRandomization = 0.5
 	manager.VerifSetSubscribeClient(openStream)
 
-	meta := vh.NewMeta("corpus cases; systematic family: single-target fault scripts (dial refusal, credentials / open / send failure, multi-hop, data then error / EOF, hang with and without receive timeout, slow live stream; seven single-target fault scripts in all, the seventh with a receive timer that is armed but cannot expire), each alone and with one Reconnect, one Remove and one Remove+Add placed at every position (quick: every second position of long logs) of the script's baseline log, a third of them with slow callbacks (a callback is logged when it returns); overlap family: two scripts x a held callback (each kind, first or second occurrence) x {Add, Remove, Reconnect} of the same name issued by a second goroutine while the first one's Remove is in progress (observed waiting inside Manager.Remove), a fifth of the random cases get such an action too; prefix family: updates whose prefix.target is the owner's name, another managed name, a removed name or an unknown name; realcm family: the Manager on the real connection.Manager with scripted dialers (unknown dialer name fixed on re-add, two targets sharing an address one of them with an unknown dialer, dial failures then success), a sixth of the random cases run on it too, an error that nothing during the call explains is reported as a stall; random family: 1-3 targets per manager (shared addresses), 1-6 scripted attempts each, 0-4 control actions (Reconnect, Remove, Add, Remove+Add) at random log positions, receive timeout none / 12 ms / far away, callbacks instantaneous or 100-400 us. distinct = distinct (scripts, actions); non-trivial = some target's log has a Reset and a ConnectError")
+	meta := vh.NewMeta("corpus cases; systematic family: single-target fault scripts (dial refusal, credentials / open / send failure, multi-hop, data then error / EOF, hang with and without receive timeout, slow live stream; seven single-target fault scripts in all, the seventh with a receive timer that is armed but cannot expire), each alone and with one Reconnect, one Remove and one Remove+Add placed at every position (quick: every second position of long logs) of the script's baseline log, a third of them with slow callbacks (a callback is logged when it returns); overlap family: two scripts x a held callback (each kind, first or second occurrence) x {Add, Remove, Reconnect} of the same name issued by a second goroutine while the first one's Remove is in progress (observed waiting inside Manager.Remove), a fifth of the random cases get such an action too; prefix family: updates whose prefix.target is the owner's name, another managed name, a removed name or an unknown name; realcm family: the Manager on the real connection.Manager with scripted dialers (unknown dialer name fixed on re-add, two targets sharing an address one of them with an unknown dialer, dial failures then success), a sixth of the random cases run on it too, an error that nothing during the call explains is reported as a stall; blocking family: dials and stream opens that only end with their context (dial blocks until Config.Timeout for k attempts then succeeds; Remove / Reconnect / Remove+Add issued during the pending call; a second target joining the pending dial; no dial timeout: only Reconnect / Remove end it), on the injected and on the real connection manager, a fifth of the random cases have a dial timeout and blocking dials; random family: 1-3 targets per manager (shared addresses), 1-6 scripted attempts each, 0-4 control actions (Reconnect, Remove, Add, Remove+Add) at random log positions, receive timeout none / 12 ms / far away, callbacks instantaneous or 100-400 us. distinct = distinct (scripts, actions); non-trivial = some target's log has a Reset and a ConnectError")
 	meta.Samples = []interface{}{} // never null in meta.json
 	window := 30 * time.Millisecond
 	par := 8
@@ -1472,6 +1590,12 @@ func main() {
 		rc = append(rc, realCMCases()...)
 		rc = append(rc, realCMCases()...)
 	}
+	bl := blockingCases()
+	if o.Thorough() {
+		bl = append(bl, blockingCases()...)
+	}
+	e.runAll(bl, par)
+	meta.Extra["blocking_cases"] = len(bl)
 	e.runAll(px, par)
 	e.runAll(rc, par)
 	meta.Extra["prefix_cases"] = len(px)
